@@ -326,7 +326,7 @@ Definition show_list (l : list str) : str :=
   show_dec (N.of_nat (length l)) ++ flat_map (fun s => " "%char :: hex s) l.
 
 Definition show_nobuild (w : nobuild) : str :=
-  match w with NotAllowed => S_ "notallowed" | NotAncestor => S_ "notancestor"
+  match w with NotAllowed => S_ "notallowed" | NotAncestor => S_ "notancestor" | Shadowed => S_ "shadowed"
              | Unresolved => S_ "unresolved" | BuildDepCycle => S_ "cycle" end.
 
 Definition show_build_info (i : build_info) : str :=
